@@ -63,6 +63,8 @@ structure Cfg where
   sopt : Bool          -- separate stderr (-s): without it only stdout is polled
   selfCheck : Bool     -- the worker tests the command timeout itself at the top of its poll loop (the proposed
                        -- repair of F07-LOSTALRM); false = the pinned source: only the EINTR branch tests it
+  stopWdog : Bool      -- dsh() cancels and joins the watchdog before it frees the thread array (part of the
+                       -- proposed repair of F07-STALEID); false = the pinned source: the watchdog runs on
 deriving DecidableEq, Repr
 
 /-- NEW / RCMD (not yet blocked) / RCMD blocked in connect / READING blocked in xpoll / DONE or FAILED -/
@@ -253,7 +255,8 @@ def dstep (s : St) : Label → Option St
         some { s with hs := updHost s i .wake }
       else none
   | .scan =>
-      if s.wake ≤ s.now then
+      if s.wake ≤ s.now ∧
+          ¬ (s.cfg.stopWdog = true ∧ (s.fan.dpc = .finishing ∨ s.fan.dpc = .returned)) then
         some { s with wake := s.now + WDOG_POLL,
                       hs := s.hs.mapIdx fun i h => hostStep s.cfg (s.script i) s.now h .scan }
       else none
@@ -268,7 +271,7 @@ def cands (s : St) : List Label :=
 def quiescent (s : St) : Bool := (cands s).all fun l => (dstep s l).isNone
 
 def step (s : St) : Label → Option St
-  | .tick => if quiescent s then some { s with now := s.now + 1 } else none
+  | .tick => if quiescent s = true ∧ s.fan.dpc ≠ .returned then some { s with now := s.now + 1 } else none
   | l => dstep s l
 
 def init (v : Fan.Variant) (f : Nat) (c : Cfg) (scripts : List Script) : St :=
